@@ -24,7 +24,8 @@ def pReg : P Reg := do
   let gs ← list str
   let p ← str
   let cs ← list (do let n ← str; let c ← nat; pure (n, c))
-  pure { method := m, groups := gs, path := p, cons := cs }
+  let mt ← opt str
+  pure { method := m, groups := gs, path := p, cons := cs, mount := mt }
 
 def pCase : P Case := do
   let nr ← bool
